@@ -358,10 +358,15 @@ class _LoopCtx:
         self.conts: set = set()
 
 
-def explore_paths(body, init_state, step: Callable) -> Exploration:
+def explore_paths(body, init_state, step: Callable, dead_code: str = "skip") -> Exploration:
     """Explore every structural path of `body` (conditions ignored: both arms of an
     `if` and zero-or-more iterations of every loop are possible), starting in
     `init_state`.
+
+    `dead_code="skip"` (default): statements after a return/break/continue are not
+    reached.  `dead_code="continue"`: the pessimistic reading in which such code is
+    entered with the states that reached the jump (as if the jump could be fallen
+    through) - for clients that want a verdict about unreachable code as well.
 
     `step(state, atom, point)` -> iterable of successor states (an empty iterable
     stops the path there).  States must be hashable.  The exploration is the least
@@ -390,6 +395,7 @@ def explore_paths(body, init_state, step: Callable) -> Exploration:
         for i, st in enumerate(b):
             if not cur:
                 break
+            entering = cur
             p = path + (i,)
             seen = ex.before[p]
             fresh_n = len(cur - seen)
@@ -432,6 +438,14 @@ def explore_paths(body, init_state, step: Callable) -> Exploration:
                     leave |= inner.breaks
                     new = out | inner.conts
                 cur = head | leave
+            if not cur and dead_code == "continue" and i + 1 < len(b):
+                # pessimistic reading: fall through the jump
+                if k == "a":
+                    cur = set(nxt)
+                elif k == "if":
+                    cur = set(entering)
+                else:
+                    cur = set(entering)
         return cur
 
     end = block(body, (), {init_state}, None)
